@@ -959,6 +959,31 @@ theorem dget_refMaps (N Z : List (κ × Nat)) (m : Dict κ) (hm : m ∈ refMaps 
   obtain ⟨x, hx, _⟩ := lookup_of_mem_keys _ k (hkeys ▸ hk)
   simp [dget, hx]
 
+theorem not_stranded (s : Spec κ ν) (cur : Cur κ ν) (v : Valid s) (g : Good s cur) :
+    strandedCollector s (refMaps (lensOfCur cur s.iterOn) (lensOfCur cur s.zipOn)) = false := by
+  unfold strandedCollector
+  cases s.asDf with
+  | true => rfl
+  | false =>
+    simp only [Bool.not_false, Bool.true_and]
+    rw [Bool.eq_false_iff]
+    intro h
+    rw [List.any_eq_true] at h
+    obtain ⟨k, hk, hall⟩ := h
+    rw [List.all_eq_true] at hall
+    have gd := guard_of_good s cur v g
+    have hpos := refMaps_pos _ _ gd
+    obtain ⟨m, hm⟩ := List.exists_mem_of_length_pos hpos
+    have := hall m hm
+    have hk' : k ∈ (lensOfCur cur s.iterOn ++ lensOfCur cur s.zipOn).map (·.1) := by
+      simp only [List.map_append, lensOfCur_fst]
+      simp only [List.mem_append] at hk ⊢
+      exact hk.symm
+    have hne := dget_refMaps _ _ m hm k hk'
+    cases hd : dget m k with
+    | none => exact hne hd
+    | some x => simp [hd] at this
+
 theorem complete_refOuts (s : Spec κ ν) (cur : Cur κ ν) : (refOuts s cur).complete = true := by
   unfold refOuts
   cases s.asDf <;> simp [Outs.complete]
@@ -975,8 +1000,8 @@ theorem run_good (s : Spec κ ν) (st : St κ ν) (cur : Cur κ ν) (order : Lis
          outs := refOuts s cur, cached := if s.useCache then some cur else none }, .ok) := by
   unfold run
   rw [hmiss, ready_of_good s cur g]
-  simp only [↓reduceIte, Bool.false_eq_true, indexMapsOf_good s cur v g,
-    evalOuts_ref s cur v g order hc, complete_refOuts, Bool.true_or, Bool.and_true]
+  simp only [↓reduceIte, Bool.false_eq_true, indexMapsOf_good s cur v g, not_stranded s cur v g,
+    Bool.and_false, evalOuts_ref s cur v g order hc, complete_refOuts, Bool.true_or, Bool.and_true]
 
 end RunGood
 
@@ -1140,9 +1165,13 @@ theorem run_inv (s : Spec κ ν) (st : St κ ν) (cur : Cur κ ν) (order : List
     split
     · split
       · exact inv
-      · refine ⟨inputs_build s _ _ inv.inputs, ?_⟩
-        intro c _ hcache gc
-        exact absurd gc (fun gc => key _ c hcache gc)
+      · split
+        · refine ⟨inputs_build s _ _ inv.inputs, ?_⟩
+          intro c _ hcache gc
+          exact absurd gc (fun gc => key _ c hcache gc)
+        · refine ⟨inputs_build s _ _ inv.inputs, ?_⟩
+          intro c _ hcache gc
+          exact absurd gc (fun gc => key _ c hcache gc)
     · refine ⟨inv.inputs, ?_⟩
       intro c huc hcache gc
       simp only at hcache
